@@ -13,7 +13,10 @@ def make_bpseq(pairing, seq=None):
 
 
 def seq_of(pairing, seq=None):
-    return seq or "".join("ACGUacguNn"[(i * 7) % 10] for i in range(len(pairing)))
+    # mixed-case letters; the phase depends on the pairing so that two structures of equal length carry different sequences
+    # (state leaking from one structure to the next would otherwise be invisible in the sequence texts)
+    off = sum(pairing) % 10
+    return seq or "".join("ACGUacguNn"[(i * 7 + off) % 10] for i in range(len(pairing)))
 
 
 # ------------------------------------------------------------------------------------------- C01
@@ -81,6 +84,15 @@ def c01_converse(structure, seq=None):
     back = b.fcfs
     if decode(back.structure) != want:
         errs.append(f"round trip via fcfs loses pairs: {back.structure}")
+    # the same for a balanced dot-bracket the library itself derives from this one (after its pairs have been used above)
+    d2 = d.without_pseudoknots()
+    want2 = decode(d2.structure)
+    b2 = BpSeq.from_dotbracket(d2)
+    got2 = {(e.index_, e.pair) for e in b2.entries if e.pair > e.index_}
+    if got2 != want2:
+        errs.append(f"from_dotbracket of the derived notation {d2.structure}: pairs {sorted(got2)} != {sorted(want2 or [])}")
+    elif decode(b2.fcfs.structure) != want2:
+        errs.append(f"round trip of the derived notation {d2.structure} loses pairs")
     return errs
 
 
